@@ -15,6 +15,7 @@ RULE = (
     "the weak-to-moderate screening regime x field (static/ramped) x tolerance in [1e-4,1e-2] x Polyak step size/drag x optional small iteration cap x optional start from the saved state of an earlier (screened or unscreened, driven) run with the drive then kept or removed, "
     "every iteration of every step checked; non-trivial = a step with >= 2 screening iterations and max|A_induced| > 1e-6 (or a kernel case with "
     ">= 10 sites); distinct by spec hash"
+    "; seeds of unscreened runs may be screened; optional earlier sweep run with another layer on a copy() of the device (shared mesh)"
 )
 ASSUMPTIONS = [
     "the site current is the documented edge-to-site average, re-implemented by the harness",
